@@ -1142,7 +1142,7 @@ VARIANT_TAG = {"obj": [None, None, None, None, None, "vertex-weight-colour", "la
                "off": [None, None, "face-colour-int", "face-colour-float", "layout"],
                "tet": [None, "layout"],
                "xyz": [None, None, "count-line", "colour+layout"],
-               "geogram_ascii": [None, None, "atts-first", "adjacency-attributes"]}
+               "geogram_ascii": [None, None, "atts-first+explicit-facet_ptr", "adjacency-attributes"]}
 STL_VARIANTS = [("binary", None), ("ascii", None), ("binary-attr", "normals+attribute-words"), ("ascii-decorated", "layout")]
 
 
